@@ -52,6 +52,10 @@ def identities(tier):
 def ask(read_code, oid):
     """one request through the real server path and the real client decoder"""
     raw = pdu.encode(dict(kind='req', fc=0x2B, read_code=read_code, object_id=oid))
+    # another component of the application prepares an identity object of its own (nothing in it yet) while the
+    # device's identity is being read
+    from pymodbus.device import ModbusDeviceIdentification
+    ask.neighbour = ModbusDeviceIdentification()
     req = framers.decoder('req').decode(raw)
     rsp = req.execute(None)
     out = bind.pdu_bytes(rsp)
